@@ -228,8 +228,10 @@ def canon_obj(o: Any) -> Any:
 
 
 class Probe:
-    """events of one call: ('s', elem, xsd_element, ctx_before) at every element start and
-    ('e', elem, xsd_element, ctx, gate, xsd_type) at every element end"""
+    """events of one call: ('s', elem, xsd_element, ctx_before) at every element start,
+    ('e', elem, xsd_element, ctx, gate, xsd_type, expected attribute-wildcard lookups) at every element end and
+    ('w', namespace, is_attribute_wildcard, processContents, result of load_namespace, rebuilt) at every call of
+    `maps.loader.load_namespace` (observed by a wrapper set on the loader OBJECT of the schema under observation)"""
 
     def __init__(self, op: str, stop_at: int):
         self.op, self.stop_at = op, stop_at
@@ -237,6 +239,62 @@ class Probe:
         self.started = 0
         self.ended = 0
         self.tabort_log: list = []
+        self.root_ns: Optional[str] = None
+        self.root_seen: Optional[bool] = None
+        self.schema = None
+
+    # ---- namespace lookups
+    def attach(self, schema, xml: Optional[str]) -> None:
+        self.schema = schema
+        loader = schema.maps.loader
+        holder = loader.__dict__.get('_c10_probe')
+        if holder is None:
+            holder = loader.__dict__['_c10_probe'] = {'probe': None}
+            orig = type(loader).load_namespace
+
+            def load_namespace(namespace, build=True):
+                pr = holder['probe']
+                if pr is None:
+                    return orig(loader, namespace, build)
+                before = namespace in loader.maps.namespaces
+                res = orig(loader, namespace, build)
+                after = namespace in loader.maps.namespaces
+                pr.log_lookup(namespace, bool(res), (not before) and after)
+                return res
+            loader.__dict__['load_namespace'] = load_namespace
+        holder['probe'] = self
+        if xml is not None:
+            m = re.match(r'\s*<(?:(\w+):)?\w+', xml)
+            try:
+                tag = ET.fromstring(xml).tag
+                self.root_ns = tag[1:].split('}')[0] if tag[:1] == '{' else ''
+            except ET.ParseError:
+                self.root_ns = None
+            if self.root_ns is not None:
+                self.root_seen = self.root_ns in schema.maps.namespaces
+
+    def detach(self) -> None:
+        if self.schema is not None:
+            holder = self.schema.maps.loader.__dict__.get('_c10_probe')
+            if holder is not None:
+                holder['probe'] = None
+
+    def log_lookup(self, namespace: str, res: bool, rebuilt: bool) -> None:
+        from xmlschema.validators.wildcards import XsdAnyAttribute, XsdWildcard
+        f = sys._getframe(2)
+        caller = None
+        for _ in range(4):
+            if f is None:
+                break
+            c = f.f_locals.get('self')
+            if isinstance(c, XsdWildcard):
+                caller = c
+                break
+            f = f.f_back
+        if caller is None:
+            self.events.append(('w', namespace, False, 'strict', res, rebuilt))
+        else:
+            self.events.append(('w', namespace, isinstance(caller, XsdAnyAttribute), caller.process_contents, res, rebuilt))
 
     @staticmethod
     def snapshot(context) -> list:
@@ -253,13 +311,38 @@ class Probe:
         self.events.append(('s', elem, xsd_element, self.snapshot(context) if context is not None else None))
         return False
 
+    @staticmethod
+    def expected_attr_lookups(elem, xsd_element, xsd_type) -> Optional[list]:
+        """port of XsdAttributeGroup.raw_decode (attributes.py:697-719) + XsdAnyAttribute.raw_decode
+        (wildcards.py:709-722): the (namespace, processContents) of the attributes of `elem` that reach
+        `load_namespace` through the attribute wildcard, in order"""
+        try:
+            group = xsd_element.get_attributes(xsd_type)
+            maps = xsd_element.maps
+        except Exception:
+            return None
+        out = []
+        for name in elem.attrib:
+            wild = None
+            if name in group and name is not None:
+                if group[name].use == 'prohibited' and None in group and group[None].is_matching(name):
+                    wild = group[None]
+            elif name[:1] == '{' and name[1:].split('}')[0] == XSI:
+                if name not in maps.attributes and None in group:
+                    wild = group[None]
+            elif None in group:
+                wild = group[None]
+            if wild is not None and wild.process_contents != 'skip':
+                out.append((name[1:].split('}')[0] if name[:1] == '{' else '', wild.process_contents))
+        return out
+
     def extra(self, elem, xsd_element):
         loc = sys._getframe(1).f_locals
         context = loc.get('context')
         snap = self.snapshot(context) if context is not None else None
-        enabled = {i for i, en in snap if en} if snap is not None else set()
-        gate = [i for i in xsd_element.selected_by if i in enabled]
-        self.events.append(('e', elem, xsd_element, snap, gate, loc.get('xsd_type')))
+        gate = [i for i, en in snap if en] if snap is not None else []     # 1e49c64: every open scope collects
+        self.events.append(('e', elem, xsd_element, snap, gate, loc.get('xsd_type'),
+                            self.expected_attr_lookups(elem, xsd_element, loc.get('xsd_type'))))
         self.ended += 1
         if self.op == 'exv' and self.ended >= self.stop_at:
             raise Foreign()
@@ -272,6 +355,7 @@ def perform(schema, op: str, xml: str, stop_at: int, probe: Optional[Probe] = No
 
     p = probe if probe is not None else Probe(op, stop_at)
     kw = {'validation_hook': p.hook, 'extra_validator': p.extra}
+    p.attach(schema, xml if op != 'encode' else None)
     try:
         if op == 'is_valid':
             out: Any = ['verdict', bool(schema.is_valid(xml, **kw))]
@@ -316,6 +400,8 @@ def perform(schema, op: str, xml: str, stop_at: int, probe: Optional[Probe] = No
     except (KeyError, AttributeError, TypeError, ValueError) as e:
         # not a library error (e.g. KeyError in lazy identity merging): for C10 only sameness matters
         out = ['raised', ['foreign:' + type(e).__name__, '', ADDR.sub('', str(e))[:200]]]
+    finally:
+        p.detach()
     return out
 
 
